@@ -1,7 +1,10 @@
 (* Property C19 - channel URIs: what the builder is told is what the parser reads back.
    Statements only; proofs are in Proofs/UriProofs.v, Proofs/UriBuilderProofs.v, Proofs/C19OracleProofs.v.
 
-   Models: Model/Uri.v (ChannelUri::parse, Display, put/get/remove, add_session_id - as the code is),
+   Models: Model/Uri.v (ChannelUri::parse, Display, put/get/remove, add_session_id - as the code is; tied to the Rust
+           text by K1: Model/UriParserSem.v interprets the syntax trees of parse / fmt / add_session_id that the
+           translator writes to Generated/GenUriParser.v on every run, and C19_k1_* say the interpreter on those
+           trees *is* this model, for every input),
            Model/UriBuilder.v (interpreter over the tables K1 reads off channel_uri_string_builder.rs on every run),
    Specification: Model/UriSpec.v (URI grammar, protocol parameter names, legal values, abstract builder,
            and `tables_ok`, the decidable condition on the generated tables). *)
@@ -12,8 +15,13 @@ Require Import V.Generated.GenUriTables.
 Require Import V.Model.UriSpec.
 Require Import V.Model.Uri.
 Require Import V.Model.UriBuilder.
+Require Import V.Model.UriSplit.
+Require Import V.Model.UriParserSem.
+Require Import V.Generated.GenUriParser.
 Require Import V.Oracle.C19Oracle.
 Require Import V.Proofs.UriProofs.
+Require Import V.Proofs.UriGrammarProofs.
+Require Import V.Proofs.UriParserGenProofs.
 Require Import V.Proofs.UriBuilderProofs.
 Require Import V.Proofs.C19OracleProofs.
 Open Scope Z_scope.
@@ -68,6 +76,106 @@ Print Assumptions C19_session_id_err.
 Theorem C19_no_bar_in_decimal : forall z, has_bar (dec z) = false.
 Proof. exact no_bar_in_decimal. Qed.
 Print Assumptions C19_no_bar_in_decimal.
+
+(* ---- K1 for the parser side: the model above is the Rust text ------------------------------------------------ *)
+
+(* `gen_parser` is the syntax tree of `ChannelUri::parse` as the translator read it off src/channel_uri.rs on this run
+   (state enum, prologue, the per-state `match` on the character, the statements after the loop, the error literals);
+   `gparse` is its interpreter. On every string it returns what the hand-written model returns - the same uri or the
+   same error with the same payload - and it is never stuck. *)
+Theorem C19_k1_parser : forall s, gparse gen_parser s = lift (parse s).
+Proof. exact gen_parse_eq. Qed.
+Print Assumptions C19_k1_parser.
+
+Theorem C19_k1_parser_accepts : forall s u, gparse gen_parser s = GOk u <-> parse s = POk u.
+Proof. exact gen_parse_ok. Qed.
+Print Assumptions C19_k1_parser_accepts.
+
+Theorem C19_k1_parser_rejects : forall s e, gparse gen_parser s = GFail e <-> parse s = PErr e.
+Proof. exact gen_parse_err. Qed.
+Print Assumptions C19_k1_parser_rejects.
+
+Theorem C19_k1_parser_total : forall s, gparse gen_parser s <> GStuck.
+Proof. exact gen_parse_not_stuck. Qed.
+Print Assumptions C19_k1_parser_total.
+
+(* the three variants of `enum State` are the three states of the model *)
+Theorem C19_k1_states : map state_of (gp_states gen_parser) = [Some SMedia; Some SKey; Some SValue].
+Proof. exact gen_states. Qed.
+Print Assumptions C19_k1_states.
+
+(* an error literal `IllegalStateError::..` is reported in class IllegalState, `IllegalArgumentError::..` in IllegalArg *)
+Theorem C19_k1_error_class : forall cur cls variant fields e r,
+  eval_gerr cur (GErr cls variant fields) e = Some r ->
+  (cls = ILLEGAL_STATE /\ err_class r = IllegalState) \/ (cls = ILLEGAL_ARGUMENT /\ err_class r = IllegalArg).
+Proof. exact eval_gerr_class. Qed.
+Print Assumptions C19_k1_error_class.
+
+(* `gen_display` is the body of `Display::fmt` (prefix with its ':', AERON_PREFIX, media, '?', key=value| per entry, pop):
+   for every prefix, media and iteration order it yields the string of the model's `print` *)
+Theorem C19_k1_display : forall prefix media ord, gdisplay gen_display prefix media ord = Some (print prefix media ord).
+Proof. exact gen_display_eq. Qed.
+Print Assumptions C19_k1_display.
+
+(* add_session_id parses, puts the decimal id under SESSION_ID_PARAM_NAME, prints *)
+Theorem C19_k1_session_id : gen_sid = {| sid_key := SESSION_ID_PARAM_NAME; sid_ok := true |}.
+Proof. exact gen_sid_eq. Qed.
+Print Assumptions C19_k1_session_id.
+
+(* prefix() media() get() get_or_default() put() remove() contains_key() are the one-liners the model assumes *)
+Theorem C19_k1_accessors : gen_accessors_ok = true.
+Proof. exact gen_accessors. Qed.
+Print Assumptions C19_k1_accessors.
+
+(* the round trip on the two translated functions alone: whatever the translated parser accepts, printed by the translated
+   fmt in any HashMap order, is accepted again by the translated parser as the same prefix, media and map *)
+Theorem C19_k1_roundtrip : forall s u,
+  gparse gen_parser s = GOk u ->
+  forall ord, Permutation ord (u_params u) ->
+    exists x, gdisplay gen_display (u_prefix u) (u_media u) ord = Some x
+              /\ gparse gen_parser x = GOk (mkUri (u_prefix u) (u_media u) ord).
+Proof. exact (gen_roundtrip_from (fun s u H ord Hp => proj1 (C19_reparse s u H ord Hp))). Qed.
+Print Assumptions C19_k1_roundtrip.
+
+(* what the harness observes for `p <s>`, computed from the two translated trees, is the model's observation *)
+Theorem C19_k1_observations : forall s, gparse_obs gen_parser gen_display s = parse_obs s.
+Proof. exact gen_obs_eq. Qed.
+Print Assumptions C19_k1_observations.
+
+(* ---- the parser accepts exactly the grammar; printing what was read gives the input back up to order -------------- *)
+
+(* converse of C19_grammar: an accepted string *is* a string of the grammar, over the prefix and media that were read, and
+   the map that was read is its key=value pairs with a later occurrence of a key replacing an earlier one *)
+Theorem C19_accepted_in_grammar : forall s u,
+  parse s = POk u ->
+  exists kvs, grammar_ok (u_prefix u) (u_media u) kvs = true
+              /\ s = spec_uri (u_prefix u) (u_media u) kvs
+              /\ u_params u = last_wins kvs.
+Proof. exact parse_in_grammar. Qed.
+Print Assumptions C19_accepted_in_grammar.
+
+Theorem C19_accepts_exactly_grammar : forall s,
+  (exists u, parse s = POk u) <-> exists prefix media kvs, grammar_ok prefix media kvs = true /\ s = spec_uri prefix media kvs.
+Proof. exact parse_accepts_iff. Qed.
+Print Assumptions C19_accepts_exactly_grammar.
+
+(* to_string(parse(s)): in whatever order the HashMap hands out the entries it is the grammar string over the same prefix
+   and media whose pairs are a permutation of the (last-wins) pairs of s; when s has no duplicate key, the order in which
+   the pairs were written gives s itself *)
+Theorem C19_print_of_parse : forall s u,
+  parse s = POk u ->
+  exists kvs, s = spec_uri (u_prefix u) (u_media u) kvs
+    /\ (forall ord, Permutation ord (u_params u) ->
+          display u ord = spec_uri (u_prefix u) (u_media u) ord /\ Permutation ord (last_wins kvs))
+    /\ (NoDup (keys kvs) -> display u (u_params u) = s).
+Proof. exact print_of_parse. Qed.
+Print Assumptions C19_print_of_parse.
+
+(* the grammar read backwards (cut at the first '?', at every '|', at the first '=' of each piece) recovers the parts *)
+Theorem C19_read_backwards : forall prefix media kvs,
+  grammar_ok prefix media kvs = true -> uri_read (spec_uri prefix media kvs) = (uri_head prefix media, kvs).
+Proof. exact uri_read_spec. Qed.
+Print Assumptions C19_read_backwards.
 
 (* ---- the specification: each setter affects only its own parameter ----------------------------------------- *)
 
@@ -149,6 +257,35 @@ Proof. split; reflexivity. Qed.
 
 Example C19_ex_grammar : grammar_ok (S "aeron-spy") (S "") [(S "k", S ""); (S "k", S "=")] = true.
 Proof. reflexivity. Qed.
+
+(* the corners of the grammar, on the model and on the translated parser: duplicate key (last wins, first position), empty
+   value, '=' '?' ':' inside values (IPv6 endpoint), '?' and ':' inside a key, characters outside ASCII *)
+Example C19_ex_corners :
+  let s := S "aeron:udp?a=1|a=2|e=|endpoint=[fe80::1]:40123|q=who?|x=a=b=|k?:=v" ++ [233; 8364; 119070; 1114111; 0] in
+  let u := mkUri [] (S "udp") [(S "a", S "2"); (S "e", []); (S "endpoint", S "[fe80::1]:40123"); (S "q", S "who?");
+                               (S "x", S "a=b="); (S "k?:", S "v" ++ [233; 8364; 119070; 1114111; 0])] in
+  parse s = POk u /\ gparse gen_parser s = GOk u
+  /\ gdisplay gen_display (u_prefix u) (u_media u) (u_params u)
+     = Some (S "aeron:udp?a=2|e=|endpoint=[fe80::1]:40123|q=who?|x=a=b=|k?:=v" ++ [233; 8364; 119070; 1114111; 0]).
+Proof. repeat split; vm_compute; reflexivity. Qed.
+
+(* '|' at the end, an empty key, a key without '=', ':' in the media, a multi-byte media: rejected, with the same error and
+   index by the model and by the translated parser (the index counts characters, not bytes) *)
+Example C19_ex_rejected :
+  gparse gen_parser (S "aeron:udp?a=b|") = GFail ENoMoreInput /\ parse (S "aeron:udp?a=b|") = PErr ENoMoreInput
+  /\ gparse gen_parser (S "aeron-spy:aeron:udp?a=b|=c") = GFail (EEmptyKey 24)
+  /\ gparse gen_parser (S "aeron:udp?a|b=c") = GFail (EInvalidEndOfKey 11)
+  /\ gparse gen_parser (S "aeron:" ++ [233; 119070] ++ S ":") = GFail (ECharInMedia 58 8)
+  /\ gparse gen_parser (S "aeron:" ++ [119070]) = GFail (EUnknownMedia [119070])
+  /\ gparse gen_parser (S "aeron") = GFail EMustStartWithAeron.
+Proof. repeat split; vm_compute; reflexivity. Qed.
+
+(* a string with a duplicate key: printing gives it back without the overwritten pair *)
+Example C19_ex_print_of_parse :
+  let u := mkUri [] (S "udp") [(S "a", S "2"); (S "b", S "")] in
+  parse (S "aeron:udp?a=1|b=|a=2") = POk u /\ display u (u_params u) = S "aeron:udp?a=2|b="
+  /\ uri_read (S "aeron:udp?a=1|b=|a=2") = (S "aeron:udp", [(S "a", S "1"); (S "b", S ""); (S "a", S "2")]).
+Proof. repeat split; reflexivity. Qed.
 
 (* a non-identity iteration order *)
 Example C19_ex_reparse :
